@@ -310,7 +310,13 @@ class Quantile(Contract):
             vc.assume(rec['inst']['sel_is_true'](z3.IntVal(0)))
             s.kstar = rec['sel'](0)
             s.f = f
-        return {('np.sum', 0): sum_weights, ('np.where', 0): at_where}
+        def at_searchsorted(vc, rec):
+            # a bisection instead of the mask lookup (np.searchsorted over the cumulative weights): the library spec is conditional on an
+            # ascending array - prove that first (own obligation), then the bisection facts are available to the rest of the script
+            vc.cut('the array handed to np.searchsorted is ascending (cumulative sums of non-negative weights)', rec['ascending'])
+            s.ss = rec
+            s.f = vc.libcalls['np.insert'][0]
+        return {('np.sum', 0): sum_weights, ('np.where', 0): at_where, ('np.searchsorted', 0): at_searchsorted}
 
     def _spec(self, s, q):
         """definitional sums of the property clause over the INPUTS (original order) and the chain of lemma instances"""
@@ -326,7 +332,9 @@ class Quantile(Contract):
 
     def lemmas_at_exit(self, s, result):
         vc = cur()
-        if not s.has('kstar') or 'np.cumsum' not in vc.libcalls:
+        if 'np.cumsum' in vc.libcalls and not s.has('kstar') and not s.has('ss'):
+            raise OutOfSubset('weighted_sample_quantile: the crossing index is found neither by np.where nor by np.searchsorted - the proof script does not apply')
+        if 'np.cumsum' not in vc.libcalls:
             # the branch that returns the minimum: the property clause is stated all the same (weights over the INPUT order)
             n, q, alpha = s.n, result.t, s.alpha
             S = s.SW(n)
@@ -342,8 +350,15 @@ class Quantile(Contract):
             vc.assume(use(stmt_sum_zero(n, lt_t, WLT)), use(stmt_sum_nonneg(n, le_t, WLE)))
             vc.cut('weights at the minimum', z3.And(WLT(n) == 0, WLE(n) >= 0))
             return []
-        n, k, q, alpha = s.n, s.kstar, result.t, s.alpha
         p = vc.libcalls['np.argsort'][0]
+        if not s.has('kstar') and s.has('ss'):
+            # bisection route: the crossing index is res - 1 or res, whichever the code used to pick the element (read off the returned value);
+            # the property needs only  f(k) <= alpha <= f(k+1)  (at an exact tie both neighbouring sample values satisfy the quantile clause)
+            r_ = s.ss['res']
+            yq = lambda j: s.xf(p.pi(j))
+            s.kstar = z3.If(z3.And(r_ >= 1, result.t == yq(r_ - 1)), r_ - 1, r_)
+            s.tie_ok = True
+        n, k, q, alpha = s.n, s.kstar, result.t, s.alpha
         cs = vc.libcalls['np.cumsum'][0]
         cum, sw, f = cs['ps'], cs['arr'], s.f
         S = s.SW(n)
@@ -360,7 +375,7 @@ class Quantile(Contract):
                   prefix_def(LT, n, lambda t: z3.If(y(t) < y(k), v(t), 0)),
                   prefix_def(VS, n, v))
         s.spec = (WLE, WLT, y(k))
-        vc.cut('the crossing index k is in range and q = x[pi(k)]', z3.And(0 <= k, k < n, q == y(k), f.at(k) < alpha, alpha <= f.at(k + 1)))
+        vc.cut('the crossing index k is in range and q = x[pi(k)]', z3.And(0 <= k, k < n, q == y(k), (f.at(k) <= alpha) if s.has('tie_ok') else (f.at(k) < alpha), alpha <= f.at(k + 1)))
         # sums over the sorted order equal sums over the original order (L2a, Lean-certified permutation invariance)
         vc.assume(L2a_perm_sum(n, p.pi, p.pinv, lambda i: z3.If(s.xf(i) <= y(k), what(i), 0), WLE, LE),
                   L2a_perm_sum(n, p.pi, p.pinv, lambda i: z3.If(s.xf(i) < y(k), what(i), 0), WLT, LT),
